@@ -647,6 +647,12 @@ func runChild(seed int64, n int, dir string, withCorpus bool) {
 	}
 	_ = os.WriteFile(filepath.Join(repo, "t2.csv"), []byte(strings.Join(r2, "\n")+"\n"), 0o644)
 	_ = os.WriteFile(filepath.Join(repo, "one.csv"), []byte("x\n1\n"), 0o644)
+	var ru []string
+	ru = append(ru, "id,grp,n,s")
+	for i := 1; i <= 70; i++ {
+		ru = append(ru, fmt.Sprintf("%d,%d,%d,%s%d", i, g.Intn(5), g.Intn(90)-30, words[g.Intn(4)], i))
+	}
+	_ = os.WriteFile(filepath.Join(repo, "u.csv"), []byte(strings.Join(ru, "\n")+"\n"), 0o644)
 
 	pr := hc.NewProc(repo)
 	defer pr.Close()
@@ -712,6 +718,22 @@ func runChild(seed int64, n int, dir string, withCorpus bool) {
 	if err != nil {
 		panic(err)
 	}
+	uBaseline, err := c.execChecked("SELECT * FROM u ORDER BY id;", "baseline")
+	if err != nil {
+		panic(err)
+	}
+	// a scalar function with nested blocks (IF declaring a local, WHILE declaring a local, parameters read
+	// after them): its results in this fresh process are the reference for later calls
+	const probeFn = "DECLARE pf FUNCTION (@a, @b) AS BEGIN VAR @r := 0; IF @a > 0 THEN VAR @loc := @a * 2; @r := @loc; IF @b > 1 THEN VAR @in := @b; @r := @r + @in; END IF; END IF; " +
+		"VAR @k := 0; WHILE @k < 2 DO VAR @w := 1; @k := @k + @w; @r := @r + @k; END WHILE; RETURN @r + @a + @b; END;"
+	const probeQ = "SELECT id, pf(n, 5), pf(id, grp) FROM t WHERE id <= 40 ORDER BY id;"
+	if _, err := c.execChecked(probeFn, "baseline"); err != nil {
+		panic(err)
+	}
+	probeBaseline, err := c.execChecked(probeQ, "baseline")
+	if err != nil {
+		panic(err)
+	}
 	rereadDt := func(where string) {
 		again, e := c.execChecked("SELECT * FROM dtt ORDER BY id; PRINT @dvar;", "reread_table")
 		if e != nil || again != dtBaseline {
@@ -753,7 +775,7 @@ func runChild(seed int64, n int, dir string, withCorpus bool) {
 	}
 	for it := 0; it < n; it++ {
 		c.seq++
-		kind := []string{"plain", "plain", "while", "udf", "prepared", "reread_table", "reread_cursor", "reread_variable", "dtcell", "fromlist"}[it%10]
+		kind := []string{"plain", "plain", "while", "udf", "prepared", "reread_table", "reread_cursor", "reread_variable", "dtcell", "fromlist", "dml_alias", "uda_pool"}[it%12]
 		o.Count("kind:" + kind)
 		switch kind {
 		case "plain":
@@ -814,6 +836,64 @@ func runChild(seed int64, n int, dir string, withCorpus bool) {
 				o.Law("repeat_eval:prepared", map[string]string{"prepare": q, "execute": ex, "first": canon(r1, e1), "second": canon(r2, e2), "first_error": errText(e1), "second_error": errText(e2)})
 			}
 			c.nt(fmt.Sprintf("prepared/%s/%v/%d", form, e1 != nil, len(r1)%97))
+		case "dml_alias":
+			// rows read BEFORE a data-changing statement and still held (cursor, derived temporary view, variable)
+			// must read the same AFTER it; ROLLBACK must bring back the committed rows
+			sfx := fmt.Sprintf("%d", c.seq)
+			mk := c.g.Pick("UPDATE u SET n = n + 0 WHERE id = 1;", "INSERT INTO u (id, grp, n, s) VALUES (1000, 1, 1, 'ins');", "UPDATE u SET s = s WHERE id > 60;")
+			k := c.g.Intn(60)
+			k2 := 1 + c.g.Intn(60)
+			vs := fmt.Sprintf("@da%s, @db%s, @dc%s", sfx, sfx, sfx)
+			setup := mk + fmt.Sprintf(" DECLARE dc%s CURSOR FOR SELECT id, s, n FROM u ORDER BY id; OPEN dc%s; DECLARE %s; DECLARE dv%s VIEW (id, s, n) AS SELECT id, s, n FROM u; DECLARE @dx%s := (SELECT s FROM u WHERE id = %d);",
+				sfx, sfx, vs, sfx, sfx, k2)
+			if _, e := c.execChecked(setup, kind); e != nil {
+				o.Count("dml_alias_setup_error")
+				_, _ = pr.Exec("ROLLBACK;")
+				continue
+			}
+			held := fmt.Sprintf("FETCH ABSOLUTE %d dc%s INTO %s; PRINT %s; SELECT * FROM dv%s ORDER BY id; PRINT @dx%s;", k, sfx, vs, strings.ReplaceAll(vs, ", ", " || '|' || "), sfx, sfx)
+			h1, e1 := c.execChecked(held, "reread_cursor")
+			dml := c.g.Pick("UPDATE u SET n = n * 2 + 1, s = UPPER(s) || '!';", "UPDATE u SET s = s || 'x', n = n - 7 WHERE id % 2 = 0;",
+				"UPDATE u SET n = grp, grp = n;", "DELETE FROM u WHERE id % 3 = 0;", "REPLACE INTO u (id, grp, n, s) USING (id) SELECT id, 9, 99, 'rep' FROM u WHERE id < 30;",
+				"ALTER TABLE u ADD (extra) DEFAULT 'e';", "UPDATE u SET s = (SELECT MAX(name) FROM t2), n = NULL WHERE id > 5;")
+			_, ed := c.execChecked(dml, kind)
+			h2, e2 := c.execChecked(held, "reread_cursor")
+			if canon(h1, e1) != canon(h2, e2) {
+				o.Law("reread:held_rows", map[string]string{"setup": setup, "held": held, "statement": dml, "before": canon(h1, e1), "after": canon(h2, e2)})
+			}
+			_, _ = pr.Exec(fmt.Sprintf("CLOSE dc%s; DISPOSE CURSOR dc%s; DISPOSE VIEW dv%s;", sfx, sfx, sfx))
+			_, _ = pr.Exec("ROLLBACK;")
+			again, e := c.execChecked("SELECT * FROM u ORDER BY id;", "reread_table")
+			if e != nil || again != uBaseline {
+				o.Law("rollback_restores", map[string]string{"setup": mk, "statement": dml, "after_rollback": canon(again, e)})
+			}
+			c.nt(fmt.Sprintf("dml_alias/%s/%v", strings.SplitN(dml, " ", 2)[0], ed != nil))
+		case "uda_pool":
+			// a user-defined AGGREGATE call (as aggregate and as analytic function, on the main goroutine and on
+			// workers), then: the scope pools hand out distinct empty objects, and a function with nested blocks
+			// still computes what it computed in the fresh process
+			ag := fmt.Sprintf("ua%d", c.seq)
+			decl := fmt.Sprintf("DECLARE %s AGGREGATE (list, @m DEFAULT 1) AS BEGIN VAR @v; VAR @acc := 0; WHILE @v IN list DO IF @v IS NOT NULL THEN VAR @t := @v * @m; @acc := @acc + @t; END IF; END WHILE; RETURN @acc; END;", ag)
+			if _, e := c.execChecked(decl, kind); e != nil {
+				o.Count("uda_declare_error")
+				continue
+			}
+			for _, cpu := range []int{1, 4} {
+				q := fmt.Sprintf("SET @@CPU TO %d; SELECT grp, %s(n), %s(n, 2) FROM t GROUP BY grp ORDER BY grp; SELECT id, %s(n) OVER (PARTITION BY grp) FROM t WHERE id <= 80 ORDER BY id; SET @@CPU TO 4;", cpu, ag, ag, ag)
+				r1, e1 := c.execChecked(q, kind)
+				if problem, bad := poolProbe(pr.P.ReferenceScope, 96); bad {
+					o.Law("pool_no_alias", map[string]string{"after": decl + " " + q, "problem": problem})
+				}
+				r2, e2 := c.execChecked(q, kind)
+				if canon(r1, e1) != canon(r2, e2) {
+					o.Law("repeat_eval:aggregate", map[string]string{"declare": decl, "sql": q, "first": canon(r1, e1), "second": canon(r2, e2), "first_error": errText(e1), "second_error": errText(e2)})
+				}
+				pb, pe := c.execChecked(probeQ, kind)
+				if canon(pb, pe) != probeBaseline {
+					o.Law("repeat_eval:after_uda", map[string]string{"after": decl + " " + q, "function": probeFn, "sql": probeQ, "fresh_process": probeBaseline, "now": canon(pb, pe), "error": errText(pe)})
+				}
+			}
+			c.nt("uda_pool")
 		case "dtcell":
 			// functions applied to datetime-typed cells and variables, twice; then the cells are read again
 			k := 1 + c.g.Intn(3)
